@@ -656,7 +656,10 @@ Section Pos.
     | S f => match get_type A n with
              | Some (TEnum _) | Some (TUnion _) => true
              | Some (TStruct s) => existsb (fun fd => pos_posb (posb f) (sf_value fd) (sf_optional fd)) (st_fields s)
-             | Some (TTypedef t) => pos_posb (posb f) (typedef_pos t) false
+             | Some (TTypedef t) =>
+               (* a typedef'd variable-length opaque counts its length word (unlike the inline form) *)
+               (is_opaque (td_target t) && match td_alias t with AFixed _ _ => false | _ => true end)
+               || pos_posb (posb f) (typedef_pos t) false
              | None => false
              end
     end.
@@ -726,10 +729,14 @@ Section Pos.
       + destruct (mem _ voids); inversion Hw; lia.
       + inversion Hw; lia.
     - (* typedef *)
-      cbn [wsz] in Hw. destruct (find_size md n) as [[? ? []]|]; try discriminate.
+      cbn [wsz] in Hw. rewrite (find_size_gen A md Hgen Hkeys n _ Hget) in Hw. cbn [i_body emit_size_body] in Hw.
       destruct (wsz md y) as [wy|] eqn:Ey; cbn [option_map] in Hw; [|discriminate].
-      match goal with HP : ShP A _ false y |- _ => pose proof (pos_ge (posb f) IH _ _ _ _ Hp HP Ey) end.
-      inversion Hw. destruct k; lia.
+      inversion Hw; subst w. clear Hw.
+      apply Bool.orb_true_iff in Hp as [Hp|Hp].
+      + apply Bool.andb_true_iff in Hp as [Ho Hal]. rewrite Ho.
+        destruct (td_alias t); try discriminate; lia.
+      + match goal with HP : ShP A _ false y |- _ => pose proof (pos_ge (posb f) IH _ _ _ _ Hp HP Ey) end.
+        destruct (is_opaque (td_target t)); [destruct (td_alias t)|]; lia.
   Qed.
 
   Theorem elems_pos_b_sound : elems_pos_b = true -> elems_positive A md.
